@@ -31,9 +31,15 @@ def main():
     cmds = sorted(os.listdir(os.path.join(core.HARNESS, "cmd")))
     def b(c):
         return c, core.go_build(c)
+    failed = []
     with cf.ThreadPoolExecutor(4) as ex:
         for c, (binary, blog) in ex.map(b, cmds):
-            print("go build %s: %s" % (c, "ok" if binary else "FAILED\n" + blog[-2000:]))
+            print("go build %s: %s" % (c, "ok" if binary else "failed, will retry\n" + blog[-2000:]))
             if not binary:
-                rc = 1
+                failed.append(c)
+    for c in failed:   # once more, alone (setup only warms the caches; every check rebuilds its harness anyway)
+        binary, blog = core.go_build(c)
+        print("go build %s (retry): %s" % (c, "ok" if binary else "FAILED\n" + blog[-2000:]))
+        if not binary:
+            rc = 1
     return rc
